@@ -79,6 +79,17 @@ class CallableObject:
         return 7
 
 
+class Temp:
+    """A helper object made on the spot whose bound method is what gets registered (`Helper(...).close`): once registered,
+    the registration is the only thing that refers to it."""
+
+    def __init__(self, fn: Any) -> None:
+        self.fn = fn
+
+    def call(self, *args: Any, **kwargs: Any) -> Any:
+        return self.fn(*args, **kwargs)
+
+
 class Names(str, __import__("enum").Enum):
     """Resource names given as members of a str-mixin Enum: equal to (and hashing like) the plain string, with a
     `str()` of their own (`'Names.A'`)."""
@@ -377,14 +388,24 @@ class Kernel:
                 return lambda *args: Awaitable(acb(*args))
             if spec["id"] % 6 == 4:
                 return CallableObject(acb, falsy=True)
+            if spec["id"] % 6 == 2:
+                return Temp(acb).call
             return acb
 
         def cb(*args: Any) -> None:
             run(args)
+            mid = kern.mid.get(cid)
+            if mid is not None and mid[0] == spec["id"]:
+                # a synchronous callback cancels the scope around the block itself: nothing can interrupt it, it ends
+                # as written; what is still to run runs in a cancelled scope
+                kern.mid.pop(cid)
+                mid[1].cancel()
             tail(args)
 
         if spec["id"] % 5 in (3, 4):
             return CallableObject(cb, falsy=spec["id"] % 5 == 4)
+        if spec["id"] % 5 == 2:
+            return Temp(cb).call
         return cb
 
     async def body_get(self, ctx: Any, cid: int, b: dict[str, Any]) -> list[str]:
